@@ -139,6 +139,12 @@ def gen_c02(tier, seed):
             k = (2 + r.randrange(4)) if fn == "read" else r.randrange(3)
             parts.insert(0, "F 0 %s %d 4" % (fn, k))
             meta["fault"] = (fn, k)
+        elif i % 5 in (1, 2) and i % 3 == 0:
+            # short transfers: the kernel takes or hands over only part of what was asked for
+            for _ in range(r.randint(1, 3)):
+                fn = r.choice(["read", "write"])
+                parts.insert(0, "F 0 %s %d 50000" % (fn, (2 + r.randrange(6)) if fn == "read" else r.randrange(5)))
+            meta["short"] = 1
         parts.append(start_tokens(0, o))
         parts += ev + ops + ["D 0"]
         meta["handles"] = {0: o}
@@ -466,6 +472,8 @@ def judge_c02(case, log):
                     V(vs, "C02", "write-after-close-not-epipe", "stdin closed but write returned %d" % ret)
             if ret == -4 and any(t[7] & 1 for t in op.get("tr", [])):
                 obs["injected_eintr"] = obs.get("injected_eintr", 0) + 1
+    if case.meta.get("short") and log.fin:
+        obs["short_transfers_fired"] = sum(1 for f in (log.fin.get("faults") or []) if f[3] == 50000 and f[4])
     return vs, obs, obs["reads"] + obs["writes"] > 0
 
 
